@@ -161,6 +161,15 @@ def aliasing(repo, run, cm):
     run.judged(rid, "first state row: %s" % (src(ys[0]) if ys else None), ok=oky)
     if not oky:
         run.report("C13.3", DS, ys[0] if ys else init, "the first row of the state buffer is not a copy of y0", text="initial row copy")
+    # the caller's right-hand-side wrapper is not kept by reference (its counters / hooked Jacobian would be modified by this system)
+    rhs_p = P[1]
+    est = [st for st in walk_no_nested(init) if isinstance(st, ast.Assign) and any(is_self_attr(t, "equ_rhs") for t in st.targets)]
+    okr = bool(est) and all(isinstance(st.value, ast.Call) and dotted(st.value.func) in ("copy.copy", "copy.deepcopy", "DiffRHS") for st in est)
+    run.judged(rid, "right-hand side stored as a copy / new wrapper: %s" % [src(st.value)[:40] for st in est], ok=okr)
+    if not okr:
+        bad_st = [st for st in est if not (isinstance(st.value, ast.Call) and dotted(st.value.func) in ("copy.copy", "copy.deepcopy", "DiffRHS"))]
+        run.report("C13.3", DS, bad_st[0] if bad_st else init, "the caller's DiffRHS object is stored by reference: integrate()/reset() of this system modify the caller's object "
+                                                               "(counters, Jacobian cache) and two systems built from it influence each other")
     # no stores into constants
     bad = []
     for rel in (DS, ITY, "desolver/integrators/components/runge_kutta_methods.py", "desolver/integrators/integrator_template.py"):
